@@ -4,7 +4,7 @@ from fractions import Fraction
 
 from . import common as C
 from . import sysutil as U
-from . import c02
+from . import c02, c03
 
 PROP = "C10"
 PROPS_FILE = "theories/Props/C10.v"
@@ -85,8 +85,20 @@ def run(ctx):
             t_ = rng.uniform(0, 3)
             states.append([t_, [rng.uniform(0.2, 1.5)], rng.choice([None, t_ + rng.uniform(0.2, 2.0), max(0.0, t_ - rng.uniform(0.1, 1.0))])])
         ntasks.append({"fn": "sysimpl.run_numjac", "indict": ind, "states": states, "disable_analytic": False, "timeout": 300})
+    # the same system with its entries listed in different orders, integrators created one after another in ONE interpreter
+    TWINS = [{"dynamics": [{"expression": "V' = V - V**3/3 - W + 1/2", "initial_value": "-1"}, {"expression": "W' = (V + 7/10 - 4/5*W)/12", "initial_value": "1"}]},
+             {"dynamics": [{"expression": "x' = -x*y + 1", "initial_value": "1"}, {"expression": "y'' = -y - y'*x**2", "initial_values": {"y": "1", "y'": "0"}}]}]
+    twin_systems = []
+    while len(twin_systems) < (1 if quick else 6):
+        s = U.gen_system(rng, max_entries=2, allow_order=(1, 1, 2), kinds=("nonlin", "nonlin", "coupled"), nparams=0, iv_params=False)
+        if len(s["entries"]) == 2 and U.offsets(s)[1] <= 3 and "time_symbol" not in s:
+            twin_systems.append([U.render(s), U.render(c03.permute_system(s, (1, 0)))])
+    for pair in [[ind, dict(ind, dynamics=list(reversed(ind["dynamics"])))] for ind in TWINS[: (1 if quick else 2)]] + twin_systems:
+        states = [(rng.uniform(0, 1), [rng.uniform(0.5, 2.0) for _ in range(3)]) for _ in range(5)]
+        seq = pair + [pair[0]] if rng.random() < 0.5 else list(reversed(pair))
+        ntasks.append({"fn": "sysimpl.run_numjac_seq", "indicts": seq, "indict": seq[0], "states": states, "disable_analytic": True, "timeout": 600, "fresh": True})
     res = C.run_tasks(tasks, timeout=40)
-    nres = C.run_tasks(ntasks, timeout=300, stub=True)
+    nres = C.run_tasks(ntasks, timeout=600, stub=True)
     coq, info, probe_failures, corr_errors = [], [], [], []
     dist = {"outcomes": {}, "n_vars": {}, "full_J": 0, "sub_J": 0, "entries_checked": 0, "nonzero_dc": 0, "numjac": {}}
     nontriv = set()
@@ -134,7 +146,9 @@ def run(ctx):
         dist["numjac"][oc] = dist["numjac"].get(oc, 0) + 1
         if oc == "Ok" and r["worst"] > 1e-5:
             probe_failures.append({"key": "numerical jacobian != finite differences: " + C.stable_hash(t["indict"]),
-                                   "what": "MixedIntegrator.numerical_jacobian differs from central finite differences of MixedIntegrator.step by %.3g (relative) for %s; e.g. %s" % (r["worst"], t["indict"]["dynamics"], r["rows"][0]),
+                                   "what": "MixedIntegrator.numerical_jacobian differs from central finite differences of MixedIntegrator.step by %.3g (relative) for %s%s; e.g. %s" % (
+                                       r["worst"], (t["indicts"][r.get("position", 0)] if "indicts" in t else t["indict"])["dynamics"],
+                                       " (integrator number %d created in one interpreter, after %s)" % (r.get("position", 0) + 1, [i_["dynamics"] for i_ in t["indicts"][:r.get("position", 0)]]) if "indicts" in t else "", r["rows"][0]),
                                    "replay": {"ntask": t}})
         if oc == "Ok" and len(samples) < 3:
             samples.append({"numjac_input": t["indict"], "worst_rel_err": r["worst"], "with_analytic_part": r["has_analytic"]})
@@ -164,6 +178,6 @@ def replay(payload):
         got = [[Fraction(v) for v in row] for row in r["J"]]
         return exp == got, "J = %s, true Jacobian = %s" % (got, exp)
     if "ntask" in rp:
-        r = C.run_tasks([rp["ntask"]], timeout=300, stub=True)[0]
+        r = C.run_tasks([rp["ntask"]], timeout=900, stub=True)[0]
         return (r.get("outcome") == "Ok" and r["worst"] <= 1e-5), "worst relative error %s" % r.get("worst")
     return True, "replay file names a broken obligation (no concrete input): " + str(payload.get("no_longer_checks"))[:500]
